@@ -520,3 +520,35 @@ def reach_flagged(g, starts, blocked=(), cut=(), init=None):
                 continue
             st.append((m, fv2))
     return out
+
+
+def resolved_text(fn_node, expr, depth=3):
+    """normalised text of `expr` with every local that has exactly one definition in the function
+    replaced by that definition (for recognising WHAT an expression reads, not for deciding when)."""
+    import copy
+    defs = {}
+    for n in own_nodes(fn_node):
+        if isinstance(n, ast.Assign) and len(n.targets) == 1 and isinstance(n.targets[0], ast.Name):
+            defs.setdefault(n.targets[0].id, []).append(n.value)
+        elif isinstance(n, (ast.For, ast.AugAssign, ast.With)):
+            tgts = [n.target] if hasattr(n, "target") else [i.optional_vars for i in n.items if i.optional_vars is not None]
+            for tg in tgts:
+                for x in ast.walk(tg):
+                    if isinstance(x, ast.Name) and isinstance(x.ctx, (ast.Store, ast.Load)) and not isinstance(tg, ast.Attribute):
+                        defs.setdefault(x.id, []).append(None)
+    e = copy.deepcopy(expr)
+    for _ in range(depth):
+        changed = False
+
+        class T(ast.NodeTransformer):
+            def visit_Name(self, node):
+                nonlocal changed
+                d = defs.get(node.id)
+                if isinstance(node.ctx, ast.Load) and d and len(d) == 1 and d[0] is not None:
+                    changed = True
+                    return copy.deepcopy(d[0])
+                return node
+        e = T().visit(e)
+        if not changed:
+            break
+    return norm(e)
